@@ -458,21 +458,39 @@ def rule_fields(rep: Report, rid="C03.fields") -> None:
         ds_i, ds_f = items(node, "DocString"), ("first", node, "DocString")
         ok = bool(extra)
         found = []
-        cases = None
-        if extra:
-            # all extra entries decided together over the presence of the two children
-            pair = ("tuple", tuple(("tuple", (b.c(k), b.c(nf.strip_dropnone(v)))) for k, v in extra))
-            cases = nf.decisions(pair)
-        for assign, val in cases or []:
-            if set(assign) - {dt_i, dt_f, ds_i, ds_f}:
-                ok = False
-                found.append(("depends on", [fmt(a, I) for a in assign]))
-                break
-            has_dt = assign.get(dt_i, False) and assign.get(dt_f, True)
-            has_ds = assign.get(ds_i, False) and assign.get(ds_f, True)
+        # decided per case of which argument child the step has (the grammar allows at most one): every condition the extra
+        # entries depend on must be a presence test of those children; an entry whose value is the absent child is None, and
+        # None entries are dropped when the dictionary goes through the None filter
+        raw3 = [(k, v, g) for k, v, g in nf.dict_content(I, nf.strip_dropnone(mr[0]), b.tree) if not (is_const(k) and k[1] in fixed)] if isinstance(o, HDict) else []
+        raw = [(k, v) for k, v, g in raw3]
+        guards_of = {id(v): [(b.c(c), pol) for c, pol in (g or ())] for k, v, g in raw3}
+        filtered = {id(v): (isinstance(v, tuple) and v and v[0] == "dropnone") for k, v in raw}
+        pair = ("tuple", tuple(("tuple", (b.c(k), b.c(nf.strip_dropnone(v)))) for k, v in raw)) if raw else None
+        atoms = nf.cond_atoms(pair) if pair else []
+        for gl in guards_of.values():
+            for c, _pol in gl:
+                nf._test_atoms(c, atoms)
+        isnone = lambda kind: ("cmp", "Is", ("first", node, kind), NONE)
+        presence = (dt_i, dt_f, ds_i, ds_f, isnone("DataTable"), isnone("DocString"))
+        stray = [a for a in atoms if a not in presence]
+        if stray:
+            ok = False
+            found.append(("depends on", [fmt(a, I) for a in stray][:3]))
+        for has_dt, has_ds in ((True, False), (False, True), (False, False)) if (pair and not stray) else ():
+            assign = {dt_i: has_dt, dt_f: has_dt, ds_i: has_ds, ds_f: has_ds, isnone("DataTable"): not has_dt, isnone("DocString"): not has_ds}
+            val = nf.resolve_conds(pair, assign)
             entries = {}
-            for kv in val[1]:
+            for (k0, v0), kv in zip(raw, val[1]):
                 k, v = kv[1]
+                try:
+                    if not all(nf.eval_test(c, assign) == pol for c, pol in guards_of[id(v0)]):
+                        continue        # this entry is only set on other paths
+                except KeyError:
+                    pass
+                cv = b.c(v)
+                for kind, present in (("DataTable", has_dt), ("DocString", has_ds)):
+                    if cv in (("first", node, kind), single(node, kind)) and not present and filtered[id(v0)]:
+                        v = NONE            # the absent child: None, removed by the filter
                 if not is_const(v, None):
                     entries[k[1] if is_const(k) else fmt(k, I)] = v
             def is_child(v, kind):
@@ -1015,6 +1033,14 @@ def rule_ids(rep: Report, rid_order="C11.order", rid_src="C11.src") -> None:
                    expected="self.id_generator", found=fmt(n[3], I) if n[3] else None)
         mr = _main_return(b, br)
         d = _dict_of(b, mr[0]) if mr else None
+        # canonical positions: a branch draws the id of the node it returns and of that node's own tags (after the children
+        # it contains have been finished), a table branch the ids of its rows - tags get no ids before their owner's steps
+        # and examples, so no other branch draws
+        if draws:
+            place = "node id / own tag ids" if (p in with_id or p == "Feature") else ("row ids" if p in ("DataTable", "ExamplesTable") else None)
+            rep.ob(rid_order, f"{p}: ids are drawn in canonical positions (rows in table branches; own tags then the node in the owner's branch)",
+                   place is not None, **_kw(b, br.line), expected="no id is drawn while a " + p + " node is finished" if place is None else place,
+                   found=f"{len(draws)} draw(s) in the {p} branch")
         if p in with_id:
             nid = nf.strip_dropnone(d["id"][0]) if d and "id" in d else None
             rep.ob(rid_src, f"{p}: the node's id is a freshly drawn id", nid is not None and nid[0] == "drawn", **_kw(b, br.line),
@@ -1024,7 +1050,7 @@ def rule_ids(rep: Report, rid_order="C11.order", rid_src="C11.src") -> None:
                 rep.ob(rid_order, f"{p}: the ids of its own tags are drawn before the node's id", max(others) < nid[1], **_kw(b, br.line),
                        expected="tags (token, item order), then the node", found=f"node draw #{nid[1]}, other draws {sorted(others)}")
             # guards: the node id is drawn on every path that returns the node
-    rep.floor("builder id draws", ndraw, 9)
+    rep.floor("builder id draws", ndraw, 5)
     # ids are drawn only under transform_node
     f = facts()
     cls = f.cls(BQ)
